@@ -14,7 +14,9 @@ What is proved (about the model `Pory.Parser.parseBooleanExpression`, the transc
     `[!]flag(X)`, `flag(X) ==|!= TRUE|FALSE`, the same five spellings for `defeated`,
     `[!]var(X)`, `var(X) op N` with op ∈ {==, !=, <, <=, >, >=}, N one INT or IDENT token,
     X one IDENT token.
-  `printOr` writes the token sequence (positions zero), `evalOr` is the standard truth value
+  Every constructor also carries the position records (`TPos`) of its tokens, so "every `g`"
+  includes every assignment of token positions; nothing but the printer looks at them.
+  `printOr` writes the token sequence, `evalOr` is the standard truth value
   (leaves: `evalLeaf`, the manual's meaning over an arbitrary `Spec.World` and history),
   `evalTree` the value of the parser's result (`Spec.leafHolds` on leaves, `.AND`/`.OR` nodes =
   conjunction / disjunction).
